@@ -75,6 +75,29 @@ def annotated(w: typing.Annotated[int, TagA] = 4, z: int = 5):
   return ('annotated', w, z)
 
 
+class AnnotatedInit:
+  """A plain class: the tags sit on the parameters of __init__, the class itself has no annotations."""
+
+  def __init__(self, w: typing.Annotated[int, TagA] = 4, z: typing.Annotated[int, TagB] = 5):
+    self.w, self.z = w, z
+
+  def __eq__(self, o):
+    return isinstance(o, AnnotatedInit) and (self.w, self.z) == (o.w, o.z)
+
+  def __repr__(self):
+    return f'AnnotatedInit({self.w!r}, {self.z!r})'
+
+
+@dataclasses.dataclass
+class AnnotatedDC:
+  w: typing.Annotated[int, TagA1] = 4
+
+
+@dataclasses.dataclass
+class AnnotatedDCChild(AnnotatedDC):
+  """Adds no field of its own: the tagged field is inherited."""
+
+
 class DenseLayer:
   """A class whose snake_cased name collides with the function below."""
 
@@ -90,6 +113,21 @@ class DenseLayer:
 
 def dense_layer(units=1):
   return ('dense_layer', units)
+
+
+class Model:
+  """A class with a classmethod constructor that a subclass inherits."""
+
+  def __init__(self, size=1):
+    self.size = size
+
+  @classmethod
+  def create(cls, size=2):
+    return (cls.__name__, size)
+
+
+class BigModel(Model):
+  pass
 
 
 def make_pool():
@@ -164,6 +202,10 @@ def make_pool():
   def _():
     return fdl.Config(annotated, z=1)
 
+  @add('annotation-tags-on-classes')
+  def _():
+    return fdl.Config(fc, fdl.Config(AnnotatedInit, z=1), q=[fdl.Config(AnnotatedDCChild), fdl.Partial(AnnotatedDC, 7)])
+
   @add('dataclass')
   def _():
     return fdl.Config(DC, n=[1, 2])
@@ -188,6 +230,11 @@ def make_pool():
   def _():
     return fdl.Config(fc, fdl.Config(DenseLayer, 1), q=fdl.Config(dense_layer, 2),
                       r=[fdl.Config(DenseLayer, 3), fdl.Partial(dense_layer, 4), fdl.Config(DenseLayer, 1)])
+
+  @add('classmethod-constructors')
+  def _():
+    # `BigModel.create` is a classmethod defined on the base class, reached through the subclass
+    return fdl.Config(fc, fdl.Config(Model.create, 3), q=fdl.Config(BigModel.create, 4), r=[fdl.Partial(BigModel.create)])
 
   @add('all-leaf-arguments-with-sets')
   def _():
